@@ -122,6 +122,10 @@ def worker_main(modname):
             else:
                 res = result(INCO, what="harness error: %s: %s" % (type(e).__name__, e),
                              witness={"traceback": tbs[-3000:]})
+        # a run that stopped because the program used a part of the MPI interface the simulation does not model carries no
+        # verdict: never a violation
+        if isinstance(res, dict) and res.get("status") == VIOL and "simulated MPI does not implement" in (str(res.get("what", "")) + str(res.get("key", ""))):
+            res = result(INCO, cls=res.get("cls", []), events=res.get("events"), what="not judged: " + str(res.get("what"))[:600], witness=res.get("witness"))
         res["wall"] = round(time.time() - t0, 4)
         proto.write(json.dumps(res, default=_jsonable) + "\n")
         proto.flush()
